@@ -113,6 +113,8 @@ MaximalOpen     == Answered => AllMaximalOpenOf(Cfg, reported)
 OncePerRotation == Answered => NoDuplicateOf(reported)
 NoneMissing     == Answered => NoneMissingOf(Cfg, reported)
 DurationIsWidth == Answered => DurationIsWidthOf(Cfg, reported, Durations(reported))
+DirectCoversPulse == stage = "direct" => CoversPulsesOf(Cfg, reported, 1)
+ExpandCoversPulses == [][\A np \in 1..MaxPulses : Expand(np) => CoversPulsesOf(Cfg, reported', np)]_vars
 
 (* the expansion over one pulse is the direct answer                                        *)
 ExpandOnePulse == stage = "ready" /\ InPhaseProc(setup.num, setup.den)
